@@ -125,7 +125,7 @@ class Scheduler:
             self.real.join(2.0)
 
 
-def run_session(pcfg, plan, save_dir, load_config=None, limit=None, storm=False, early=False):
+def run_session(pcfg, plan, save_dir, load_config=None, limit=None, storm=False, early=False, past_time=None):
     """One run of the real CrackingSession under schedule [plan].
     Returns dict(out=[guesses], pops=[pt_items], saves=n, save_config, omen_exit, omen_guess_num, steps)."""
     import lib_guesser.cracking_session as cs
@@ -168,6 +168,9 @@ def run_session(pcfg, plan, save_dir, load_config=None, limit=None, storm=False,
     else:
         cfg = load_config
     session = cs.CrackingSession(pcfg, cfg, save_filename)
+    if past_time is not None and hasattr(session.report, "past_guessing_time"):
+        # a session that has already been running for past_time seconds (what report.load takes from a save file)
+        session.report.past_guessing_time = past_time
     saves = []
     orig_save = session._save_session
 
